@@ -113,7 +113,8 @@ def gen_case(run_seed, tier):
         elif k == "ptrace":
             hist.append(["ptrace", a, wl.randint(1, 3), det, [wl.randrange(2) for _ in range(3)]])
     gseed = sz.randrange(10**6)
-    return {"n": n0, "init": init, "api": api, "gseed": gseed, "history": hist}
+    # argument form: qubit positions handed over as numpy integers in a share of runs (what index arithmetic on arrays yields)
+    return {"n": n0, "init": init, "api": api, "gseed": gseed, "history": hist, "np_ints": sz.random() < 0.3}
 
 
 def simplify(case):
@@ -352,6 +353,9 @@ def run_case(case):
                     f"got rows {got.rows[:6]} expected one of {[c[1].rows[:6] for c in candidates][:2]}", {"op": what})
         return None
 
+    Q = (lambda v: np.int64(v)) if case.get("np_ints") else (lambda v: v)
+    if case.get("np_ints"):
+        ctx.probe("positions_as_numpy_integers")
     for step, st in enumerate(case["history"]):
         k = st[0]
         n = ref.n
@@ -361,7 +365,7 @@ def run_case(case):
         try:
             if k in G1:
                 q = st[1] % n
-                sut.g1(k, q)
+                sut.g1(k, Q(q))
                 ref_g1(ref, k, q)
                 cands = [("", ref)]
                 ctx.log(step, k, q)
@@ -371,7 +375,7 @@ def run_case(case):
                     continue
                 c = st[1] % n
                 t = [i for i in range(n) if i != c][st[2] % (n - 1)]
-                sut.g2(k, c, t)
+                sut.g2(k, Q(c), Q(t))
                 ref_g2(ref, k, c, t)
                 did["ent"] += 1
                 cands = [("", ref)]
@@ -381,7 +385,7 @@ def run_case(case):
                 want = bit if det == "probabilistic" else det
                 script = OutcomeScript([bit], fallback=0)
                 with OwnedRNG(random.Random(0), outcomes=script, ctx=ctx):
-                    o, xp = sut.mz(q, det)
+                    o, xp = sut.mz(Q(q), det)
                 ro, rrnd = ref.measure(q, want)
                 ctx.fault("forced_outcome" if det != "probabilistic" else "scripted_outcome")
                 ctx.probe("random_measurement" if rrnd else "deterministic_measurement")
@@ -422,7 +426,7 @@ def run_case(case):
                 want = bit if det == "probabilistic" else det
                 script = OutcomeScript([bit], fallback=0)
                 with OwnedRNG(random.Random(0), outcomes=script, ctx=ctx):
-                    sut.reset(k, q, intended, det)
+                    sut.reset(k, Q(q), intended, det)
                 cands = []
                 for w in ([want, 1 - want]):
                     r2 = ref.copy()
@@ -448,7 +452,7 @@ def run_case(case):
                     b = a  # swapping a qubit with itself is legal and must be the identity
                     ctx.probe("swap_same_qubit")
                 sut_t = sut.tab
-                sfc.swap_gate(sut_t, a, b)
+                sfc.swap_gate(sut_t, Q(a), Q(b))
                 ref.swap(a, b)
                 if rows_signed:
                     did["struct_signed"] += 1
@@ -498,7 +502,7 @@ def run_case(case):
                 if k == "addq":
                     sfc.add_qubit(t0)
                 else:
-                    sfc.insert_qubit(t0, pos)
+                    sfc.insert_qubit(t0, Q(pos))
                 ref.insert(pos)
                 if rows_signed:
                     did["struct_signed"] += 1
@@ -525,7 +529,7 @@ def run_case(case):
                         ctx.probe("remove_deterministic_multi_destab")
                 script = OutcomeScript([bit], fallback=0)
                 with OwnedRNG(random.Random(0), outcomes=script, ctx=ctx):
-                    sut.remove(q, det)
+                    sut.remove(Q(q), det)
                 cands = []
                 for w in ([want, 1 - want]):
                     r2 = ref.copy()
